@@ -111,8 +111,8 @@ def suite_by_name(name):
 
 def run(r: core.Runner):
     # the digest module's own command line, all outputs in one call, against the functions called one by one (shared with C09)
-    from .c09 import main_differential
-    r.traces = (r.traces or 0) + main_differential(r, core.tier_n(r.tier, 25, 300))
+    from .c09 import main_differential, arg_round_trip
+    r.traces = (r.traces or 0) + main_differential(r, core.tier_n(r.tier, 25, 300)) + arg_round_trip(r, core.tier_n(r.tier, 200, 3000))
     r.assumptions += [
         "protein sequences are non-empty and min_len >= 1 (the tool's defaults are 7 and 60)",
         "peptide sets are compared as sets (duplicates and generation order are not observable through the peptide map)",
